@@ -3,6 +3,7 @@ package main
 import (
 	"fmt"
 	"go/ast"
+	"go/parser"
 	"go/token"
 	"go/types"
 	"os"
@@ -51,6 +52,10 @@ type Program struct {
 	keyInfo map[types.Object]pathKey
 	GOARCH  string
 	GOOS    string
+
+	NewFuncs  map[*types.Func]bool          // unexported library functions that are not in knownFuncs (a_alias.go)
+	Alias     map[types.Object]types.Object // local / parameter aliases (a_alias.go)
+	AliasExpr map[types.Object]ast.Expr     // named local -> the expression it names
 }
 
 func shortPkg(path string) string {
@@ -75,11 +80,20 @@ func Load(repo string, extra bool, goos, goarch string) (*Program, error) {
 	if goarch != "" {
 		env = append(env, "GOARCH="+goarch)
 	}
+	absRepo, _ := filepath.Abs(repo)
 	cfg := &packages.Config{
 		Mode:  packages.LoadAllSyntax | packages.NeedModule,
 		Dir:   repo,
 		Env:   env,
 		Tests: false,
+		// the repository's own non-test files are canonicalised after parsing (a_canon.go)
+		ParseFile: func(fset *token.FileSet, filename string, src []byte) (*ast.File, error) {
+			f, err := parser.ParseFile(fset, filename, src, parser.AllErrors|parser.ParseComments)
+			if err == nil && f != nil && strings.HasPrefix(filename, absRepo+string(filepath.Separator)) && !strings.HasSuffix(filename, "_test.go") {
+				canonicalize(fset, f)
+			}
+			return f, err
+		},
 	}
 	var patterns []string
 	for _, p := range libPkgs {
@@ -169,6 +183,7 @@ func Load(repo string, extra bool, goos, goarch string) (*Program, error) {
 	if len(prog.Pkgs) < len(libPkgs) {
 		return nil, fmt.Errorf("only %d packages loaded", len(prog.Pkgs))
 	}
+	prog.buildAliases()
 	return prog, nil
 }
 
@@ -301,7 +316,8 @@ func (p *Program) PkgOfPos(pos token.Pos) *packages.Package {
 func (p *Program) LibFuncs(pkg string) []*FuncInfo {
 	var out []*FuncInfo
 	for _, f := range p.Funcs {
-		if shortPkg(f.Pkg.PkgPath) == pkg {
+		// NEW helpers are seen inlined in their callers, not as functions of their own (a_alias.go)
+		if shortPkg(f.Pkg.PkgPath) == pkg && !p.NewFuncs[f.Obj] {
 			out = append(out, f)
 		}
 	}
